@@ -54,82 +54,146 @@ def r10_1(rep: Report) -> None:
     enc = [n for n in ast.walk(fn) if isinstance(n, ast.Call) and call_name(n) == 'atom.encode']
     if len(load) != 1 or len(enc) != 1 or norm(load[0].targets[0]) != 'atom':
         raise AnalysisError('generate_init_segment: load_fragment/encode idiom not recognised')
-    lo, hi = load[0].lineno, enc[0].lineno
     import re
+    from ..pathcond import PathCond, atoms_of, entails as pc_entails, satisfiable, f_and, show as pc_show
+    from ..flow import Disjunctive, Flow
     atom = norm(load[0].targets[0])
     seen: set[str] = set()
 
-    def pssh_guards_ok(g: list[str], arg: ast.AST) -> tuple[bool, str]:
-        if len(g) != 3:
-            return False, f'expected three enclosing guards, found {g}'
-        if not re.fullmatch(r'\w+\.encrypted', g[0]):
-            return False, f'outer guard `{g[0]}` is not the encryption test of the representation'
-        m = re.fullmatch(r'for (\w+) in (\w+)', g[1])
-        if not m:
-            return False, f'`{g[1]}` is not a loop over the DRM context'
-        loopvar, coll = m.groups()
-        from_ctx = any(isinstance(a, ast.Assign) and norm(a.targets[0]) == coll
-                       and isinstance(a.value, ast.Call) and call_name(a.value) == 'DrmContext'
-                       for a in ast.walk(fn))
-        if not from_ctx:
-            return False, f'`{coll}` is not a DrmContext(...)'
-        if g[2] != f'{loopvar}.moov is not None':
-            return False, f'inner guard `{g[2]}` is not `{loopvar}.moov is not None`'
-        if not isinstance(arg, ast.Name):
-            return False, 'the appended child is not a local built from the DRM hook'
-        built = any(isinstance(a, ast.Assign) and norm(a.targets[0]) == arg.id
-                    and re.fullmatch(rf'{loopvar}\.moov\(\w+\.default_kid\)', norm(a.value))
-                    for a in ast.walk(fn))
-        if not built:
-            return False, (f'`{arg.id}` is not `{loopvar}.moov(<representation>.default_kid)`')
+    def gen(st):
+        out = []
+        if st is load[0]:
+            out.append('loaded')
+        if any(c_ is enc[0] for c_ in ast.walk(st)):
+            out.append('encoded')
+        if isinstance(st, ast.Delete) and any(norm(t) == f'{atom}.moov.mehd' for t in st.targets):
+            out.append('mehd-deleted')
+        # `try: del atom.moov.mehd  except AttributeError: ...` - the handler path is "there was no mehd"
+        h = getattr(st, '_parent', None)
+        if isinstance(h, ast.ExceptHandler) and h.type is not None and 'AttributeError' in norm(h.type):
+            tr = getattr(h, '_parent', None)
+            if isinstance(tr, ast.Try) and any(
+                    isinstance(d, ast.Delete) and any(norm(t) == f'{atom}.moov.mehd' for t in d.targets)
+                    for b_ in tr.body for d in ast.walk(b_)):
+                out.append('mehd-deleted')
+        return out
+
+    def loop_of(node):
+        for a_ in ancestors(node):
+            if isinstance(a_, ast.For):
+                return a_
+            if a_ is fn:
+                break
+        return None
+
+    def pssh_ok(n: ast.Call, states) -> tuple[bool, str]:
+        lp = loop_of(n)
+        if lp is None or not isinstance(lp.target, ast.Name):
+            return False, 'the append is not inside a loop over the DRM context'
+        loopvar = lp.target.id
+        it = lp.iter
+        if isinstance(it, ast.Name):
+            ds = [a_ for a_ in ast.walk(fn) if isinstance(a_, ast.Assign) and norm(a_.targets[0]) == it.id]
+            it = ds[0].value if len(ds) == 1 else it
+        if not (isinstance(it, ast.Call) and call_name(it) == 'DrmContext'):
+            return False, f'the loop iterates `{norm(lp.iter)}`, not a DrmContext(...)'
+        arg = n.args[0]
+        src = arg
+        if isinstance(arg, ast.Name):
+            ds = [a_ for a_ in ast.walk(lp) if isinstance(a_, ast.Assign) and norm(a_.targets[0]) == arg.id]
+            src = ds[0].value if len(ds) == 1 else None
+        if src is None or not re.fullmatch(rf'{loopvar}\.moov\(\w+\.default_kid\)', norm(src)):
+            return False, f'the appended child is not `{loopvar}.moov(<representation>.default_kid)`'
+        for x in states:
+            ats = atoms_of(x[0])
+            encs = [t for t in ats if re.fullmatch(r'\w+\.encrypted', t)]
+            if not encs or pc_entails(x[0], ('atom', encs[0])) is not True:
+                return False, 'a path to the append does not imply the encryption test of the representation'
+            if pc_entails(x[0], ('not', ('atom', f'{loopvar}.moov is None'))) is not True:
+                return False, f'a path to the append does not imply `{loopvar}.moov is not None`'
         return True, ''
 
-    for n in ast.walk(fn):
-        ln = getattr(n, 'lineno', 0)
-        if not (lo < ln <= hi):
-            continue
-        mut = None
-        kind = None
-        if isinstance(n, ast.Call) and isinstance(n.func, ast.Attribute) and n.func.attr in EDIT_CALLS \
-                and norm(n.func.value).startswith(atom):
-            mut = norm(n)
-            if n.func.attr == 'append_child' and norm(n.func.value) == f'{atom}.moov' and len(n.args) == 1:
-                kind = 'pssh'
-        elif isinstance(n, ast.Delete) and any(norm(t).startswith(atom) for t in n.targets):
-            mut = norm(n)
-            if len(n.targets) == 1 and norm(n.targets[0]) == f'{atom}.moov.mehd':
-                kind = 'mehd'
-        elif isinstance(n, (ast.Assign, ast.AugAssign)):
-            tg = n.targets if isinstance(n, ast.Assign) else [n.target]
-            if any(norm(t).startswith(atom + '.') or norm(t).startswith(atom + '[') for t in tg):
+    live_atoms: set[str] = set()
+
+    def on_stmt(st, states):
+        if isinstance(st, (ast.If, ast.While, ast.For, ast.With, ast.Try)):
+            return
+        states = [x for x in states if 'loaded' in x[2] and 'encoded' not in x[2]]
+        if not states:
+            if any(c_ is enc[0] for c_ in ast.walk(st)):
+                pass
+            else:
+                return
+        for n in ast.walk(st):
+            mut = None
+            kind = None
+            if isinstance(n, ast.Call) and isinstance(n.func, ast.Attribute) and n.func.attr in EDIT_CALLS \
+                    and norm(n.func.value).startswith(atom):
                 mut = norm(n)
-        if mut is None:
-            continue
-        g = guards_of(n, fn)
-        if kind == 'pssh':
-            seen.add('pssh')
-            ok, why = pssh_guards_ok(g, n.args[0])
-            if ok:
-                rep.ok(rid, c, 'moov.append_child(pssh)', f'under {g}')
+                if n.func.attr == 'append_child' and norm(n.func.value) == f'{atom}.moov' and len(n.args) == 1:
+                    kind = 'pssh'
+            elif isinstance(n, ast.Delete) and any(norm(t).startswith(atom) for t in n.targets):
+                mut = norm(n)
+                if len(n.targets) == 1 and norm(n.targets[0]) == f'{atom}.moov.mehd':
+                    kind = 'mehd'
+            elif isinstance(n, (ast.Assign, ast.AugAssign)):
+                tg = n.targets if isinstance(n, ast.Assign) else [n.target]
+                if any(norm(t).startswith(atom + '.') or norm(t).startswith(atom + '[') for t in tg):
+                    mut = norm(n)
+            if mut is None or not states:
+                continue
+            if kind == 'pssh':
+                seen.add('pssh')
+                ok, why = pssh_ok(n, states)
+                if ok:
+                    rep.ok(rid, c, 'moov.append_child(pssh)')
+                else:
+                    rep.fail(rid, c, 'moov.append_child(pssh)',
+                             f'`{mut}`: {why}; a pssh may only be appended for an encrypted track, per '
+                             'selected DRM system, when that system has a moov hook', n)
+            elif kind == 'mehd':
+                seen.add('mehd')
+                bad = None
+                for x in states:
+                    lives = [t for t in atoms_of(x[0]) if re.fullmatch(r"\w+ == 'live'", t)]
+                    live_atoms.update(lives)
+                    if not lives or pc_entails(x[0], ('atom', lives[0])) is not True:
+                        bad = x
+                if bad is None:
+                    rep.ok(rid, c, 'del moov.mehd', 'only in live mode')
+                else:
+                    rep.fail(rid, c, 'del moov.mehd',
+                             f"`{mut}` is performed on a path that does not imply live mode "
+                             f"({pc_show(bad[0])[:100]}); mehd may only be removed in live mode", n)
             else:
-                rep.fail(rid, c, 'moov.append_child(pssh)',
-                         f'`{mut}`: {why}; a pssh may only be appended for an encrypted track, per '
-                         'selected DRM system, when that system has a moov hook', n)
-        elif kind == 'mehd':
-            seen.add('mehd')
-            if len(g) == 1 and re.fullmatch(r"\w+ == 'live'", g[0]):
-                rep.ok(rid, c, 'del moov.mehd', f'under {g}')
-            else:
-                rep.fail(rid, c, 'del moov.mehd',
-                         f"`{mut}` is performed under {g}; mehd may only be removed in live mode", n)
+                rep.fail(rid, c, mut,
+                         f'`{mut}` changes the init segment tree; only a pssh append per DRM with a moov '
+                         'hook and the removal of mehd in live mode are allowed', n)
+
+    encode_states: list = []
+
+    def on_stmt2(st, states):
+        on_stmt(st, states)
+        if not isinstance(st, (ast.If, ast.While, ast.For, ast.With, ast.Try)) \
+                and any(c_ is enc[0] for c_ in ast.walk(st)):
+            encode_states.extend(states)
+    Flow(Disjunctive(PathCond(gen=gen), cap=512), on_stmt=on_stmt2).run(fn, [PathCond.initial()])
+    # in live mode the mehd box is removed on every path to the encoder
+    if 'mehd' in seen and live_atoms:
+        la = sorted(live_atoms)[0]
+        missed = [x for x in encode_states if 'mehd-deleted' not in x[2]
+                  and satisfiable(f_and(x[0], ('atom', la)))]
+        if missed:
+            rep.fail(rid, c, 'mehd removed whenever live',
+                     f'a path reaches atom.encode() in live mode without removing mehd '
+                     f'({pc_show(missed[0][0])[:100]})', enc[0])
         else:
-            rep.fail(rid, c, mut,
-                     f'`{mut}` changes the init segment tree; only a pssh append per DRM with a moov '
-                     'hook and the removal of mehd in live mode are allowed', n)
+            rep.ok(rid, c, 'mehd removed whenever live')
     for m in ('pssh', 'mehd'):
         if m not in seen:
             rep.fail(rid, c, f'missing:{m}', f'the expected `{m}` edit is no longer performed', fn)
     rep.ok(rid, c, 'inventory complete', f'{len(seen)} edits between load_fragment and encode')
+    hi = enc[0].lineno
     # the response body is exactly atom.encode()
     ret = [n for n in ast.walk(fn) if isinstance(n, ast.Return) and n.lineno > hi]
     body_var = next((norm(n.targets[0]) for n in ast.walk(fn) if isinstance(n, ast.Assign)
